@@ -244,6 +244,7 @@ func (e *Exec) finishPath(st *State, fr *Frame, res Value, in *ssa.Return) {
 		e.checkResultContracts(st, fr, impl, ienv, res)
 	}
 	e.checkResultContracts(st, fr, e.contract, env, res)
+	e.emitRefinements(st, fr, res, in)
 	for i, ci := range e.contract.CbInv {
 		name := fmt.Sprintf("cbinv-preserved#%d", i+1)
 		if len(ci.Labels) > 0 {
@@ -677,4 +678,157 @@ func (e *Exec) isLocalName(name string) bool {
 		}
 	}
 	return e.localNames[name]
+}
+
+
+// ifaceMethodSig finds the signature of the interface method named by a
+// contract key such as "types.SegmentWriter.Append".
+func (p *Prog) ifaceMethodSig(key string) *types.Signature {
+	parts := strings.Split(key, ".")
+	if len(parts) != 3 {
+		return nil
+	}
+	for _, sp := range p.prog.AllPackages() {
+		if sp.Pkg.Name() != parts[0] || strings.Contains(sp.Pkg.Path(), "internal/") {
+			continue
+		}
+		obj := sp.Pkg.Scope().Lookup(parts[1])
+		if obj == nil {
+			continue
+		}
+		if _, ok := obj.Type().Underlying().(*types.Interface); !ok {
+			continue
+		}
+		m, _, _ := types.LookupFieldOrMethod(obj.Type(), true, sp.Pkg, parts[2])
+		if f, ok := m.(*types.Func); ok {
+			return f.Type().(*types.Signature)
+		}
+	}
+	return nil
+}
+
+// emitRefinements: `refines K` on a concrete method. At every return the
+// postconditions of the interface-method contract K are proved with `self`
+// bound to the receiver, so that the ghost fields of the interface view
+// (self.last, self.sealed, ...) read through the type's `coupling`
+// definitions, in the post-state and (under old()) in the pre-state. Ghost
+// fields K does not list in its `assigns` must keep their coupled value.
+// Clauses labelled assumed-* are not part of the refinement (they stay
+// assumptions and are listed as such).
+func (e *Exec) emitRefinements(st *State, fr *Frame, res Value, in *ssa.Return) {
+	if e.contract == nil || len(e.contract.Refines) == 0 || len(e.fn.Params) == 0 {
+		return
+	}
+	if e.refineNotes == nil {
+		e.refineNotes = map[string]bool{}
+	}
+	site := strings.TrimPrefix(e.ordinalName(in, "return"), "safe:")
+	for _, key := range e.contract.Refines {
+		ic := e.prog.contracts.Funcs[key]
+		if ic == nil || !ic.IsIface {
+			panic(contractError{"refines: unknown interface contract " + key})
+		}
+		sig := e.prog.ifaceMethodSig(key)
+		if sig == nil {
+			panic(contractError{"refines: cannot find interface method " + key})
+		}
+		if sig.Params().Len() != len(e.fn.Params)-1 {
+			panic(contractError{"refines: arity of " + key + " differs from " + e.unit})
+		}
+		env := &Env{e: e, st: st, old: e.pre, fr: nil, vars: map[string]Value{}, pos: true, pkgName: ic.Pkg}
+		bind := func(p *ssa.Parameter) Value {
+			if v, ok := e.params[p.Name()]; ok {
+				return v
+			}
+			return fr.Vals[p]
+		}
+		recv := bind(e.fn.Params[0])
+		env.vars["self"] = recv
+		for i := 0; i < sig.Params().Len(); i++ {
+			n := sig.Params().At(i).Name()
+			if n == "" || n == "_" {
+				n = fmt.Sprintf("arg%d", i)
+			}
+			env.vars[n] = bind(e.fn.Params[i+1])
+		}
+		env.bindResult(res)
+		mark := func(n0 int) {
+			for _, o := range e.obls[n0:] {
+				o.Site = site
+				o.RefinesKey = key
+			}
+		}
+		for i, en := range ic.Ensures {
+			assumed := false
+			for _, l := range en.Labels {
+				if strings.HasPrefix(l, "assumed-") {
+					assumed = true
+				}
+			}
+			if assumed {
+				e.refineNotes[fmt.Sprintf("%s: clause [%s] stays an assumption (not part of the refinement by %s)", key, strings.Join(en.Labels, ","), e.unit)] = true
+				continue
+			}
+			g, cerr := env.tryEvalBool(en.E)
+			if cerr != "" {
+				e.refineNotes[fmt.Sprintf("%s: ensures#%d cannot be read through the coupling of %s (%s): not linked", key, i+1, e.unit, cerr)] = true
+				continue
+			}
+			name := fmt.Sprintf("refines(%s)/ensures#%d", key, i+1)
+			if len(en.Labels) > 0 {
+				name = fmt.Sprintf("refines(%s)/ensures[%s]", key, strings.Join(en.Labels, ","))
+			}
+			n0 := len(e.obls)
+			e.emit(st, name, "refines", nil, g, fmt.Sprintf("%s:%d", en.File, en.Line))
+			mark(n0)
+		}
+		// frame of the abstraction: coupled ghost fields the interface contract
+		// does not assign keep their value
+		var tk string
+		if p, ok := recv.(VPtr); ok {
+			if nt := namedOf(p.Elem); nt != nil && nt.Obj().Pkg() != nil {
+				tk = nt.Obj().Pkg().Name() + "." + nt.Obj().Name()
+			}
+		}
+		assigned := map[string]bool{}
+		for _, a := range ic.Assigns {
+			if sel, ok := a.E.(*ESel); ok {
+				if id, ok := sel.X.(*EIdent); ok && id.Name == "self" {
+					assigned[sel.Name] = true
+				}
+			}
+		}
+		var fields []string
+		for f := range e.prog.contracts.Couplings[tk] {
+			fields = append(fields, f)
+		}
+		sort.Strings(fields)
+		for _, f := range fields {
+			if assigned[f] || ic.AssignAll {
+				continue
+			}
+			x := &ESel{X: &EIdent{Name: "self"}, Name: f}
+			cur, cerr := env.tryEval(x)
+			if cerr != "" {
+				continue
+			}
+			old, cerr := env.tryEval(&EOld{X: x})
+			if cerr != "" {
+				continue
+			}
+			n0 := len(e.obls)
+			e.emit(st, fmt.Sprintf("refines(%s)/frame(self.%s)", key, f), "refines", nil, e.valEq(cur, old), fmt.Sprintf("%s:%d", ic.File, ic.Line))
+			mark(n0)
+		}
+		if len(ic.GhostSet) > 0 {
+			e.refineNotes[fmt.Sprintf("%s: ghost counter updates (%d ghostset clauses) are bookkeeping of the caller-side model and not part of the refinement", key, len(ic.GhostSet))] = true
+		}
+		var reqs []string
+		for _, rq := range e.contract.Requires {
+			reqs = append(reqs, rq.Src)
+		}
+		if len(reqs) > 0 {
+			e.refineNotes[fmt.Sprintf("%s <= %s holds under the implementation's own preconditions (representation invariant at entry, established by its constructors and preserved by its methods; size headroom): %s", key, e.unit, strings.Join(reqs, " && "))] = true
+		}
+	}
 }
